@@ -434,6 +434,9 @@ func (server *SugarDB) getState() map[int]map[string]interface{} {
 		}
 	}
 	verifPoint("getstate.copy")
+	// The expiry sampler and the eviction passes delete keys under the store lock only.
+	server.storeLock.RLock()
+	defer server.storeLock.RUnlock()
 	data := make(map[int]map[string]interface{})
 	for db, store := range server.store {
 		data[db] = make(map[string]interface{})
